@@ -50,6 +50,9 @@ def strategy(tier):
     return st.fixed_dictionaries({
         'heads': st.lists(st.tuples(heading, st.lists(body_block, max_size=2)), min_size=1, max_size=8),
         'toc': st.sampled_from([None, None, 0, 1, 2]),
+        'toc_range': st.sampled_from([None, None, '2-3', '2', '1-2', '3-6', '1', '1-6']),
+        # a note whose text calls another note: (host kind, host index, guest kind, guest index)
+        'nest': st.lists(st.tuples(st.sampled_from(['fn', 'cite', 'gl']), st.integers(0, 4), st.sampled_from(['fn', 'cite', 'gl']), st.integers(0, 4)), max_size=3),
         'table': st.booleans(),
         'mode': st.sampled_from(['default', 'default', 'random_foot', 'random_labels', 'no_labels', 'base_header_level']),
         'smart': st.booleans(),
@@ -130,18 +133,51 @@ def build(case):
             else:
                 blocks.append('\n'.join('> ' + ser_para(p) for p in paras))
         if case['toc'] is not None and case['toc'] == idx:
-            blocks.append('{{TOC}}')
+            blocks.append('{{TOC:%s}}' % case['toc_range'] if case.get('toc_range') else '{{TOC}}')
     if case['table']:
         blocks.append('| a | b |\n|---|---|\n| c | d |\n[Table Caption][tablabel]')
-    defined_fn = sorted(set(x for x in used['fn'] if x.startswith('fn')))
+    # notes called from inside other notes' texts.  The lists are written in the order footnotes, glossary, citations and each list re-reads its
+    # length while it is written, so a first call inside a note text registers its target as long as the target's list is not yet closed:
+    # same kind (to a higher index: no cycles), or towards a later list.  The other direction (a footnote first called inside a glossary or
+    # citation entry, a glossary term first called inside a citation entry) is a known finding and only generated for its seed.
+    RANK = {'fn': 0, 'gl': 1, 'cite': 2}
+    NAME = {'fn': 'fn%d', 'gl': 'term%d', 'cite': 'ct%d'}
+    CALL = {'fn': 'see[^%s]', 'gl': 'see [?%s]', 'cite': 'see[#%s]'}
+    nest = {}
+    used['reverse_nest'] = False
+    for hk, hi, gk, gi in case.get('nest', []):
+        hi, gi = hi % (5 if hk == 'fn' else 3), gi % (5 if gk == 'fn' else 3)
+        if hk == gk and gi <= hi:
+            continue
+        if RANK[gk] < RANK[hk]:
+            if not case.get('allow_known'):
+                used['excluded_reverse_nest'] = used.get('excluded_reverse_nest', 0) + 1
+                continue
+            used['reverse_nest'] = True
+        nest.setdefault((hk, NAME[hk] % hi), []).append((gk, NAME[gk] % gi))
+    defs = {'fn': sorted(set(x for x in used['fn'] if x.startswith('fn'))), 'cite': sorted(set(used['cite'] + used['notcited'])), 'gl': sorted(set(used['gl']))}
+    called = {'fn': list(dict.fromkeys(x for x in used['fn'])), 'cite': list(dict.fromkeys(used['cite'])), 'gl': list(dict.fromkeys(used['gl']))}
+    # closure in the order the writer visits the lists
+    for hk in ('fn', 'gl', 'cite'):
+        i = 0
+        while i < len(called[hk]):
+            for gk, g in nest.get((hk, called[hk][i]), []):
+                if g not in called[gk]:
+                    called[gk].append(g)
+                if g not in defs[gk]:
+                    defs[gk].append(g)
+                used['nested'] = used.get('nested', 0) + 1
+            i += 1
+    used['called'] = called
+    tail = lambda k, n: ''.join(' ' + CALL[gk] % g for gk, g in nest.get((k, n), []))
     if case['unused_note']:
-        defined_fn.append('fnunused')
-    for n in defined_fn:
-        blocks.append('[^%s]: text of %s.' % (n, n))
-    for c in sorted(set(used['cite'] + used['notcited'])):
-        blocks.append('[#%s]: Author. *Title %s*. 2020.' % (c, c))
-    for g in sorted(set(used['gl'])):
-        blocks.append('[?%s]: definition of %s' % (g, g))
+        defs['fn'].append('fnunused')
+    for n in defs['fn']:
+        blocks.append('[^%s]: text of %s.%s' % (n, n, tail('fn', n)))
+    for c in defs['cite']:
+        blocks.append('[#%s]: Author. *Title %s*. 2020.%s' % (c, c, tail('cite', c)))
+    for g in defs['gl']:
+        blocks.append('[?%s]: definition of %s%s' % (g, g, tail('gl', g)))
     if mode != 'base_header_level' and re.match(r'^[A-Za-z0-9][A-Za-z0-9_ \t.\-]*:', blocks[0]):
         blocks.insert(0, 'Opening paragraph so that line one is not metadata-shaped.')
     return '\n\n'.join(blocks) + '\n', heads, refs, used
@@ -176,7 +212,14 @@ def check(case, ctx):
         i = el.get('id')
         if i is not None:
             ids.setdefault(i, []).append(el)
-    fail = lambda sig, msg: Violation(sig, '%s\nmode=%s\nsource=%r\nhtml=%r' % (msg, mode, src, out[:1500]))
+    def fail(sig, msg):
+        if used['reverse_nest'] and re.match(r'(footnote|glossary):(call-dangling|list-size)', sig):
+            sig = 'note:first-call-inside-later-list'
+        return Violation(sig, '%s\nmode=%s\nsource=%r\nhtml=%r' % (msg, mode, src, out[:1500]))
+    if used.get('excluded_reverse_nest'):
+        ctx.cls('excluded_known_reverse_nest')
+    if used.get('nested'):
+        ctx.cls('nested_note_calls')
     # --- lists ---
     lists = {}
     for div in root.iter('div'):
@@ -247,16 +290,12 @@ def check(case, ctx):
             if first.get('class') != kind or first.get('href') != '#' + li.get('id'):
                 raise fail('%s:back-link-wrong-target' % kind, 'entry %s returns to %r which is not its first call' % (li.get('id'), bh))
     # expected amounts
-    exp_fn = []
-    for x in used['fn']:
-        if x not in exp_fn:
-            exp_fn.append(x)
+    exp_fn = list(used['called']['fn'])
     if len(lists.get('footnotes', [])) != len(exp_fn):
         raise fail('footnote:list-size', 'expected %d footnote entries, found %d' % (len(exp_fn), len(lists.get('footnotes', []))))
-    exp_c = []
-    for x in used['cite']:
-        if x not in exp_c:
-            exp_c.append(x)
+    exp_c = list(used['called']['cite'])
+    if len(lists.get('glossary', [])) != len(used['called']['gl']):
+        raise fail('glossary:list-size', 'expected %d glossary entries, found %d' % (len(used['called']['gl']), len(lists.get('glossary', []))))
     nc = [x for x in dict.fromkeys(used['notcited']) if x not in exp_c]
     if len(lists.get('citations', [])) != len(exp_c) + len(nc):
         raise fail('citation:list-size', 'expected %d cited + %d not-cited entries, found %d' % (len(exp_c), len(nc), len(lists.get('citations', []))))
@@ -276,18 +315,25 @@ def check(case, ctx):
             if el.get('id') != exp_id:
                 raise fail('heading:id', 'heading %d %r has id %r, expected %r' % (i, h['title'], el.get('id'), exp_id))
     toc = [d for d in root.iter('div') if d.get('class') == 'TOC']
+    # {{TOC:a-b}} / {{TOC:a}} restrict the table to headings whose level as written (before any base header level) lies in the range
+    rng = case.get('toc_range')
+    lo, hi = (1, 6) if not rng else (int(rng[0]), int(rng[-1]))
+    raw = lambda h: 1 if h['style'] == 'set1' else 2 if h['style'] == 'set2' else h['level']
+    in_toc = [el for h, el in zip(heads, hels) if lo <= raw(h) <= hi]
+    if rng:
+        ctx.cls('toc_ranged')
     toc_links = set()
     if toc and mode == 'no_labels':
         if list(toc[0].iter('a')):
             raise fail('toc:link-without-id', 'TOC links although headings carry no id')
         entries = [text_of(li).strip().split('\n')[0].strip() for li in toc[0].iter('li')]
-        want_t = [re.sub(r' \[lab\d+\]$', '', text_of(el).strip()) for el in hels]      # a manual label is literal text when labels are off
+        want_t = [re.sub(r' \[lab\d+\]$', '', text_of(el).strip()) for el in in_toc]      # a manual label is literal text when labels are off
         if entries != want_t:
             raise fail('toc:entries', 'TOC %r\nheadings %r' % (entries, want_t))
     if toc and mode != 'no_labels':
         entries = [(text_of(a).strip(), a.get('href')) for a in toc[0].iter('a')]
         toc_links = set(id(a) for a in toc[0].iter('a'))
-        exp = [(text_of(el).strip(), '#' + el.get('id')) for el in hels]
+        exp = [(text_of(el).strip(), '#' + el.get('id')) for el in in_toc]
         if entries != exp:
             raise fail('toc:entries', 'TOC %r\nheadings %r' % (entries, exp))
         ctx.cls('toc_checked')
